@@ -10,11 +10,12 @@
    map_get / map_insert / map_remove of Base/Json.v; their finite-map laws are
    proved in Proofs/RegProofs.v).
 
-   Two variants of the specification differ in exactly one place (a_put):
-     AsStated       registering a name by string / precompiled template makes
-                    that template the one that is rendered (tracking stops);
-     AsImplemented  such a registration keeps a file tracking that is in
-                    force for the name (finding F6).                        *)
+   There is ONE specification, the one the property text states: the entry of
+   a name is what was last successfully registered under it; registering by
+   string / precompiled template makes that template the one rendered (a
+   file tracking in force for the name stops).  (Before the fix of finding F6
+   the implementation kept the tracking; the model and this file follow the
+   fixed crate.)                                                          *)
 From HB Require Export Reg.RegOps.
 
 Record entry := { en_tpl : template; en_file : option str }.
@@ -35,26 +36,17 @@ Definition a_with (a : areg) (ents : list (str * entry)) : areg :=
 Definition a_opts (a : areg) (name : option str) : copts :=
   {| o_prevent_indent := a_pi a; o_is_partial := false; o_name := name |}.
 
-Definition a_file_of (a : areg) (n : str) : option str :=
-  match map_get (a_ents a) n with Some e => en_file e | None => None end.
-
-Definition a_tracked (a : areg) (n : str) : bool :=
-  match a_file_of a n with Some _ => true | None => false end.
-
-Inductive spec_variant := AsStated | AsImplemented.
-
 (* ---------- operations ---------- *)
 
-(* register_template: a precompiled template becomes the entry of n *)
-Definition a_put (v : spec_variant) (a : areg) (n : str) (t : template) : areg :=
-  a_with a (map_insert (a_ents a) n
-              {| en_tpl := t;
-                 en_file := match v with AsStated => None | AsImplemented => a_file_of a n end |}).
+(* register_template: a precompiled template becomes the entry of n; no file
+   is tracked for n any more *)
+Definition a_put (a : areg) (n : str) (t : template) : areg :=
+  a_with a (map_insert (a_ents a) n {| en_tpl := t; en_file := None |}).
 
 (* register_template_string = register_partial *)
-Definition a_register_template_string (v : spec_variant) (a : areg) (n src : str) : areg * cres unit :=
+Definition a_register_template_string (a : areg) (n src : str) : areg * cres unit :=
   match compile2 src (a_opts a (Some n)) with
-  | COk t => (a_put v a n t, COk tt)
+  | COk t => (a_put a n t, COk tt)
   | CErr e => (a, CErr e)
   | CPanic p => (a, CPanic p)
   | CFuel => (a, CFuel)
@@ -133,7 +125,7 @@ Definition aset_cur (w : aworld) (a : areg) : aworld :=
 (* the effect of one operation of the case protocol on the abstract world;
    helper/escape configuration is not part of the abstract state, observation
    operations change nothing *)
-Definition a_step (v : spec_variant) (w : aworld) (o : op) : aworld :=
+Definition a_step (w : aworld) (o : op) : aworld :=
   let a := acur w in
   match o with
   | OStrict b => aset_cur w (a_set_strict a b)
@@ -148,19 +140,19 @@ Definition a_step (v : spec_variant) (w : aworld) (o : op) : aworld :=
   | OSel b => {| aw_a := aw_a w; aw_b := aw_b w; aw_sel := b; aw_files := aw_files w |}
   | OUnreg n => aset_cur w (a_unregister a n)
   | OClear => aset_cur w (a_clear a)
-  | ORegs n s | ORegp n s => aset_cur w (fst (a_register_template_string v a n s))
+  | ORegs n s | ORegp n s => aset_cur w (fst (a_register_template_string a n s))
   | ORegf n p => aset_cur w (fst (a_register_template_file a (aw_files w) n p))
   | ORegt n mode s =>
       match compile2 s {| o_prevent_indent := false; o_is_partial := false;
                           o_name := if N.eqb mode 0 then None else Some n |} with
-      | COk t => aset_cur w (a_put v a n t)
+      | COk t => aset_cur w (a_put a n t)
       | _ => w
       end
   | _ => w
   end.
 
-Definition a_exec (v : spec_variant) (w : aworld) (ops : list op) : aworld :=
-  fold_left (a_step v) ops w.
+Definition a_exec (w : aworld) (ops : list op) : aworld :=
+  fold_left a_step ops w.
 
 (* the concrete world after a sequence of operations (run_ops keeps only the
    observations; see run_ops_snoc in Proofs/RegProofs.v for the connection) *)
@@ -178,25 +170,22 @@ Definition abs_world (w : world) : aworld :=
   {| aw_a := abs (w_a w); aw_b := option_map abs (w_b w); aw_sel := w_sel w;
      aw_files := w_files w |}.
 
-(* ---------- the F6 class of histories ---------- *)
-Definition is_cok {A} (c : cres A) : bool := match c with COk _ => true | _ => false end.
-
-(* o successfully re-registers, by string or precompiled template, a name
-   whose file is being tracked *)
-Definition f6_hit (a : areg) (o : op) : bool :=
-  match o with
-  | ORegs n s | ORegp n s => a_tracked a n && is_cok (compile2 s (a_opts a (Some n)))
-  | ORegt n mode s =>
-      a_tracked a n && is_cok (compile2 s {| o_prevent_indent := false; o_is_partial := false;
-                                             o_name := if N.eqb mode 0 then None else Some n |})
-  | _ => false
+(* ---------- what every reachable registry satisfies ---------- *)
+(* strictly increasing keys *)
+Fixpoint skeys {A} (m : list (str * A)) : Prop :=
+  match m with
+  | [] => True
+  | (k, _) :: r => (forall k', In k' (map fst r) -> str_cmp k k' = Lt) /\ skeys r
   end.
 
-Fixpoint f6_free (w : aworld) (ops : list op) : bool :=
-  match ops with
-  | [] => true
-  | o :: rest => negb (f6_hit (acur w) o) && f6_free (a_step AsStated w o) rest
-  end.
+Record reg_inv (r : registry) : Prop := {
+  inv_tpls : skeys (r_templates r);
+  inv_srcs : skeys (r_sources r);
+  (* only registered names are tracked *)
+  inv_sub : forall n, map_get (r_templates r) n = None -> map_get (r_sources r) n = None;
+  (* nothing is tracked while dev mode is off *)
+  inv_dev : r_dev r = false -> r_sources r = []
+}.
 
 (* operations that select or create the clone *)
 Definition is_clone_or_sel (o : op) : bool :=
